@@ -9,8 +9,9 @@ for f in glob.glob(os.path.join(V, "tools", "manifest.d", "*.json")):
     src["checks"][os.path.basename(f)[:-5]] = json.load(open(f))
 props = [json.loads(l)["id"] for l in open(os.path.join(V, "properties.jsonl"))]
 checks = []
+allow = set(open(os.path.join(V, "tools", "claimed.txt")).read().split())
 for pid in props:
-    c = src["checks"].get(pid)
+    c = src["checks"].get(pid) if pid in allow else None
     if not c or not os.path.exists(os.path.join(V, "checks", pid + ".py")):
         continue
     checks.append(dict(property_id=pid, quick_cmd="./check %s --tier quick" % pid,
